@@ -204,4 +204,157 @@ Lemma kfp_skipped exo sp ss se prev old :
   sp || ss -> gaussian_predict (O:=O) Ft Q exo sp ss se prev old = prev.
 Proof. by rewrite /gaussian_predict /kf_predict_step; case: sp => //=; case: ss. Qed.
 
+(* ---- layout: the descriptors the returned object reports ---- *)
+(* a step that is not skipped does not write the descriptors of the output object (no resize) *)
+Lemma kfp_layout_kept exo prev old :
+  gm_layout (kf_predict (O:=O) Ft Q exo prev old) = gm_layout old.
+Proof. by []. Qed.
+
+(* with the flags: a skipped step returns the input's descriptors, whatever the output object was *)
+Lemma kfp_layout_flags exo sp ss se prev old :
+  gm_layout (gaussian_predict (O:=O) Ft Q exo sp ss se prev old) =
+  if sp || ss then gm_layout prev else gm_layout old.
+Proof. by rewrite /gaussian_predict /kf_predict_step; case: sp => //=; case: ss. Qed.
+
+Lemma gl_same_shapeP (a b : glayout) :
+  gl_same_shape a b ->
+  [/\ gl_components a = gl_components b, gl_dim a = gl_dim b & gl_dim_cov a = gl_dim_cov b].
+Proof.
+rewrite /gl_same_shape => /andP [/andP [h1 h2] h3].
+by split; apply/PeanoNat.Nat.eqb_eq.
+Qed.
+
+(* on an output object with the shape of the input (whatever its linear/circular split), the
+   predicted mixture reports the component count and the sizes of the input belief *)
+Lemma kfp_layout_of_input exo prev old :
+  gl_same_shape (gm_layout old) (gm_layout prev) ->
+  [/\ gl_components (gm_layout (kf_predict (O:=O) Ft Q exo prev old)) = gl_components (gm_layout prev),
+      gl_dim (gm_layout (kf_predict (O:=O) Ft Q exo prev old)) = gl_dim (gm_layout prev) &
+      gl_dim_cov (gm_layout (kf_predict (O:=O) Ft Q exo prev old)) = gl_dim_cov (gm_layout prev)].
+Proof. by rewrite kfp_layout_kept; exact: gl_same_shapeP. Qed.
+
+(* storage and descriptors stay consistent: one covariance and one weight per reported component *)
+Lemma kfp_shaped exo sp ss se prev old :
+  gm_shaped prev -> gm_shaped old ->
+  gm_shaped (gaussian_predict (O:=O) Ft Q exo sp ss se prev old).
+Proof.
+move=> sp_ so; rewrite /gaussian_predict /kf_predict_step; case: sp => //=; case: ss => //=.
+case: sp_ => pc [pw [pk [pn pv]]]; case: so => oc [ow [ok [on ov]]].
+rewrite /gm_shaped /=; split; last by do !split.
+by rewrite overwrite_prefix_length ?map_length ?oc ?pc ?ok ?pk.
+Qed.
+
+(* the whole returned object at once, on an output object with as many components as the input *)
+Lemma kfp_whole exo prev old :
+  length (gm_covs old) = length (gm_covs prev) ->
+  kf_predict (O:=O) Ft Q exo prev old =
+  mkGmix (O:=O)
+    (match exo with
+     | Some u => (Ft *m gm_means prev + u (gm_means prev) : 'M[F]_(n,k))
+     | None => Ft *m gm_means prev
+     end)
+    (List.map (kf_predict_cov (O:=O) Ft Q) (gm_covs prev)) (gm_weights old) (gm_layout old).
+Proof.
+move=> e; rewrite /kf_predict /gaussian_predict /kf_predict_step /=.
+by rewrite overwrite_prefix_full ?map_length ?e //; case: exo.
+Qed.
+
+(* ---- the component-by-component spec function the violation search evaluates ---- *)
+Lemma mcol_const1 (i : nat) : (i < k)%N ->
+  (mcol (O:=O) i (mconst O 1 k (1 : F)) : 'M[F]_(1,1)) = 1%:M.
+Proof.
+move=> ik; apply/matrixP=> r c; rewrite /mcol /mconst /= !mxE.
+by rewrite mx_get_build // [r]ord1 [c]ord1 eqxx.
+Qed.
+
+Lemma mcol_affine_exo (B : 'M[F]_n) (c : 'cV[F]_n) (X : 'M[F]_(n,k)) (i : nat) : (i < k)%N ->
+  (mcol (O:=O) i (affine_exo (O:=O) B c X) : 'cV[F]_n) = B *m mcol (O:=O) i X + c.
+Proof.
+move=> ik; rewrite /affine_exo.
+rewrite [LHS](mcol_add (B *m X) (c *m (mconst O 1 k (1 : F) : 'M[F]_(1,k)))) !mcol_mul.
+by rewrite mcol_const1 // mulmx1.
+Qed.
+
+Lemma kf_spec_length e (means : 'M[F]_(n,k)) (covs : list 'M[F]_n) :
+  length (kf_spec (O:=O) Ft Q e means covs) = length covs.
+Proof. by rewrite /kf_spec map_length combine_length seq_length PeanoNat.Nat.min_id. Qed.
+
+Lemma kf_spec_nth e (means : 'M[F]_(n,k)) (covs : list 'M[F]_n) (i : nat) dm dc :
+  (i < length covs)%coq_nat ->
+  List.nth i (kf_spec (O:=O) Ft Q e means covs) (dm, dc) =
+  ((match e with
+    | Some (B, c) => Ft *m mcol (O:=O) i means + (B *m mcol (O:=O) i means + c)
+    | None => Ft *m mcol (O:=O) i means + 0
+    end : 'cV[F]_n),
+   (Ft *m List.nth i covs dc *m Ft^T + Q : 'M[F]_n)).
+Proof.
+move=> h; rewrite /kf_spec.
+set f := (fun ip : nat * _ => _).
+rewrite (nth_indep _ (dm, dc) (f (0%N, dc))); last by rewrite map_length combine_length seq_length PeanoNat.Nat.min_id.
+rewrite map_nth combine_nth ?seq_length // seq_nth // /f /= /spec_mean /kf_predict_cov /= {f}.
+by case: e => [[B c]|].
+Qed.
+
+(* the spec function and the model agree, component by component *)
+Lemma kfp_model_is_spec e prev old (i : nat) dm dc :
+  (i < k)%N -> (i < length (gm_covs prev))%coq_nat ->
+  (gm_mean_i (kf_predict (O:=O) Ft Q (affine_exo_opt (O:=O) e) prev old) i,
+   List.nth i (gm_covs (kf_predict (O:=O) Ft Q (affine_exo_opt (O:=O) e) prev old)) dc) =
+  List.nth i (kf_spec (O:=O) Ft Q e (gm_means prev) (gm_covs prev)) (dm, dc).
+Proof.
+move=> ik h; rewrite kf_spec_nth // kfp_cov_i //; congr pair.
+case: e => [[B c]|]; rewrite /affine_exo_opt; first by rewrite kfp_mean_i_exo mcol_affine_exo.
+by rewrite kfp_mean_i_noexo addr0.
+Qed.
+
 End KFP.
+
+(* ---- one prediction object, several calls (time-varying model, flags, model replaced) ---- *)
+Section KFS.
+Variable F : realFieldType.
+Variable tr : Transc F.
+Variable sq : forall n, 'M[F]_n -> 'M[F]_n.
+Variable eg : forall n, 'M[F]_n -> 'M[F]_(n,1).
+Let O := MxMat tr sq eg.
+Implicit Types (c : kf_call O) (calls : list (kf_call O)).
+
+Lemma kf_seq_length calls : length (kf_predict_seq calls) = length calls.
+Proof. by rewrite /kf_predict_seq map_length. Qed.
+
+(* the answer to call s is the step on the inputs of call s *)
+Lemma kf_seq_nth calls s d :
+  List.nth s (kf_predict_seq calls) (kf_call_run d) = kf_call_run (List.nth s calls d).
+Proof. by rewrite /kf_predict_seq map_nth. Qed.
+
+(* no hidden memory: what came before and what comes after a call does not enter its answer *)
+Lemma kf_seq_app calls1 c calls2 :
+  kf_predict_seq (calls1 ++ c :: calls2) = kf_predict_seq calls1 ++ kf_call_run c :: kf_predict_seq calls2.
+Proof. by rewrite /kf_predict_seq map_app. Qed.
+
+(* each call is answered with the matrices the model holds AT THAT CALL *)
+Lemma kf_call_cov c (i : nat) d :
+  ~~ kc_sp c -> ~~ kc_ss c -> (i < length (gm_covs (kc_prev c)))%coq_nat ->
+  (List.nth i (gm_covs (kr_mix (kf_call_run c))) d : 'M[F]_(kc_n c)) =
+  kc_F c *m List.nth i (gm_covs (kc_prev c)) d *m (kc_F c)^T + kc_Q c.
+Proof.
+case: c d => n0 k0 F0 Q0 e0 sp ss se p o /= d; case: sp => //; case: ss => // _ _ h.
+exact: kfp_cov_i.
+Qed.
+
+Lemma kf_call_means c :
+  ~~ kc_sp c -> ~~ kc_ss c ->
+  (gm_means (kr_mix (kf_call_run c)) : 'M[F]_(kc_n c, kc_k c)) =
+  match kc_exo c, kc_se c with
+  | Some u, false => kc_F c *m gm_means (kc_prev c) + u (gm_means (kc_prev c))
+  | _, _ => kc_F c *m gm_means (kc_prev c)
+  end.
+Proof.
+case: c => n0 k0 F0 Q0 e0 sp ss se p o /=; case: sp => //; case: ss => // _ _.
+by rewrite /kf_call_run /= /gaussian_predict /kf_predict_step /= lin_propagate_cases; case: e0 => [u|]; case: se.
+Qed.
+
+Lemma kf_call_skipped c :
+  kc_sp c || kc_ss c -> kr_mix (kf_call_run c) = kc_prev c.
+Proof. by case: c => n0 k0 F0 Q0 e0 sp ss se p o /= h; exact: kfp_skipped. Qed.
+
+End KFS.
